@@ -444,7 +444,7 @@ fn qreps(case: &QCase, explore: bool) -> usize {
 fn run_qcase(case: &QCase, rules: &[Rule], reps: usize) -> (Option<String>, Option<QObs>) {
     let mut last = (None, None);
     for _ in 0..reps.max(1) {
-        let Ok(obs) = run_query(rules, &case.facts, &case.goal, &case.cfg) else {
+        let Ok(obs) = run_query_text(rules, &case.facts, &case.goal_text(), &case.cfg) else {
             return (None, None);
         };
         let v = judge_query(case, &obs);
@@ -866,7 +866,7 @@ impl Check for C10 {
                     if rng.chance(1, 4) {
                         cfg.strat = Strat::Bfs;
                     }
-                    let case = QCase { kb: plan.kb.clone(), facts, goal, cfg };
+                    let case = QCase { kb: plan.kb.clone(), facts, goal, cfg, goal_spelling: None };
                     check_qcase(&case, &parsed, st);
                     if rng.chance(1, 3) && !plan.kb.rules.is_empty() {
                         // the same query over the same rules carrying 1-3 side-effect actions
